@@ -328,7 +328,7 @@ def run_check(modname, argv):
     # 3. implementation, monitors, correspondence
     corr_error = None
     try:
-        obs, failures, mism, unsup = check_batch(prop, modname, pid, cases, args.jobs)
+        obs, failures, mism, unsup = check_batch(prop, modname, f'{pid}_{os.getpid()}', cases, args.jobs)
     except RuntimeError as e:
         if 'failed to evaluate' in str(e) and not proofs['ok']:
             # the model itself does not build: correspondence cannot be evaluated
@@ -402,7 +402,7 @@ def run_check(modname, argv):
                 if hasattr(prop, 'coq_model_obs'):
                     try:
                         payload['model_observation'] = eval_terms_show(
-                            prop, pid, [('model', prop.coq_model_obs(cases[i]))])
+                            prop, f'{pid}_{os.getpid()}', [('model', prop.coq_model_obs(cases[i]))])
                     except Exception as e:  # noqa
                         payload['model_observation'] = f'(unavailable: {e})'
                 payload['other_mismatching_cases'] = [cases[j] for j in mism[1:6]]
